@@ -91,6 +91,9 @@ func implC01(line string) string {
 	if len(f) == 3 && f[0] == "fn" {
 		return implFn(f[2])
 	}
+	if len(f) == 4 && f[0] == "fn2" {
+		return implFn(f[2], f[3])
+	}
 	if len(f) == 6 && f[0] == "bind" {
 		return implBind(f)
 	}
@@ -126,8 +129,12 @@ func genC01(c *h.Ctx) {
 	}
 }
 
-func implFn(prog string) string {
-	src := mujs.RenderFnJS(prog)
+// implFn runs one program, or several one after the other on the same runtime (several Run calls)
+func implFn(progs ...string) string {
+	var srcs []string
+	for _, p := range progs {
+		srcs = append(srcs, mujs.RenderFnJS(p))
+	}
 	var first string
 	for route := 0; route < 2; route++ {
 		var logged []string
@@ -147,20 +154,38 @@ func implFn(prog string) string {
 		var v otto.Value
 		var err error
 		if route == 0 {
-			v, err = vm.Run(src)
+			for _, src := range srcs {
+				if v, err = vm.Run(src); err != nil {
+					break
+				}
+			}
 		} else {
-			var s *otto.Script
-			s, err = vm.Compile("", src)
+			var ss []*otto.Script
+			for _, src := range srcs {
+				var s *otto.Script
+				if s, err = vm.Compile("", src); err != nil {
+					break
+				}
+				ss = append(ss, s)
+			}
 			if err == nil {
-				// a Script run on another runtime first must not change what it does here
+				// Scripts run on another runtime first must not change what they do here
 				o2 := otto.New()
 				o2.Set("log", func(call otto.FunctionCall) otto.Value { return call.Argument(0) })
 				o2.Set("hostCall", func(call otto.FunctionCall) otto.Value {
 					r, _ := call.Otto.Call(call.Argument(0).String(), nil)
 					return r
 				})
-				o2.Run(s)
-				v, err = vm.Run(s)
+				for _, s := range ss {
+					if _, e2 := o2.Run(s); e2 != nil {
+						break
+					}
+				}
+				for _, s := range ss {
+					if v, err = vm.Run(s); err != nil {
+						break
+					}
+				}
 			}
 		}
 		t := "t:[" + strings.Join(logged, ",") + "];"
